@@ -71,8 +71,7 @@ RECURSIVE Seqs(_)
 Seqs(n) == IF n = 0 THEN {<<>>} ELSE {<<>>} \cup { <<a>> \o t : a \in Alphabet, t \in Seqs(n - 1) }
 SeqScripts == { Setup(s) \o q \o Probes(s) : s \in {TRUE, FALSE}, q \in Seqs(MaxLen) }
 
-C04Scripts == LatticeScripts \cup TypeScripts \cup StrScripts \cup SeqScripts
-C04ScriptsOK == { x \in C04Scripts : \A i \in DOMAIN x : x[i].op = "Verify" =>
-                    \A j \in DOMAIN x[i].tok.pay.m : InR(x[i].tok.pay.m[j][4]) }
-MCSpec == ISpecWith(C04ScriptsOK)
+\* boundary values that would leave the 64-bit range are dropped (per family: see ISpecFam in Interp.tla)
+OK(S) == { x \in S : \A i \in DOMAIN x : x[i].op = "Verify" => \A j \in DOMAIN x[i].tok.pay.m : InR(x[i].tok.pay.m[j][4]) }
+MCSpec == ISpecFam(<<OK(LatticeScripts), OK(TypeScripts), OK(StrScripts), OK(SeqScripts)>>)
 =============================================================================
